@@ -125,6 +125,15 @@ CLAIMS.update({
              "worker's processed count, and if an un-cancelled run had finished the snapshot is exactly that run's result (count, pattern, stream); the remaining step (the snapshot "
              "already equals the worker's result when no run finished since the last look) is evaluated as an oracle clause on every tick of every history.",
         note=NU_NOTE),
+    "C18": dict(
+        technique="Lean 4 theorems (permutation by construction of a swap-only model, uniqueness of the sorted order for the worker's total order) + exact-output correspondence with the real sort",
+        text="Theorems: for every comparison function (even inconsistent), every oracle for the cancel-flag reads, every input: the resulting slice is a permutation of the input "
+             "(the model of all of par_sort.rs mutates only by swaps, enforced by its type), cancelled or not; a flag raised before the start returns 'cancelled' with the slice "
+             "untouched; the worker's comparison decides every pair of distinct matches, hence two sorted permutations of the same matches are equal (thread-count independence). "
+             "Partial: 'non-decreasing order' and 'not cancelled when the flag is never raised' are not theorems; they are evaluated on the real output of every case, and the model "
+             "reproduces the real final slice exactly (including the order of ties, break_patterns, heapsort fallback and cancel points) for 1/2/8/16 threads.",
+        note="Trusted: Lean kernel, axioms propext/Classical.choice/Quot.sound (Lean's `for`/partial loop combinators are opaque definitions, not axioms), translator (pdqsort thresholds), "
+             "harness+driver. rayon::join is modelled as sequential composition on disjoint sub-slices."),
     "C20": dict(
         technique="Lean 4 invariant over all histories of injector/clone/drop/restart/reparse/tick with arbitrary tick oracles + history replay",
         text="Theorem C20_history: for every history of injector(), clone, drop, restart(true|false), reparse and tick - every lock outcome, counter value and background-run effect "
@@ -175,7 +184,7 @@ def main():
     print("MANIFEST.json written:", len(checks), "checks,", len(m["not_applicable"]), "not applicable")
 
 
-HOOK_COMMITS = ["83be2c1", "70f7560", "1c72289", "55bd267"]
+HOOK_COMMITS = ["83be2c1", "70f7560", "1c72289", "55bd267", "826cdcd"]
 
 if __name__ == "__main__":
     main()
